@@ -2,7 +2,6 @@ package rules
 
 import (
 	"fmt"
-	"go/ast"
 	"go/token"
 	"go/types"
 	"sort"
@@ -43,7 +42,9 @@ type pipeRoles struct {
 	errs              []string
 }
 
-func (pr *pipeRoles) errf(f string, a ...interface{}) { pr.errs = append(pr.errs, fmt.Sprintf(f, a...)) }
+func (pr *pipeRoles) errf(f string, a ...interface{}) {
+	pr.errs = append(pr.errs, fmt.Sprintf(f, a...))
+}
 
 func isSelfPtr(t types.Type, n *types.Named) bool {
 	p, ok := t.(*types.Pointer)
@@ -814,39 +815,62 @@ func runC03R3(c *core.Ctx, pr *pipeRoles) {
 		return
 	}
 	c.FuncsSeen[p.QName(chk)] = true
-	obj, _ := chk.Object().(*types.Func)
-	decl := p.FuncDecl[obj]
-	pk := p.ByPath[p.Module]
+	// the admitted interfaces: every comma-ok type assertion on a handler value (a type switch is lowered to
+	// the same chain of assertions)
 	var cases []string
-	hasDefault, defaultPanics := false, false
-	if decl != nil {
-		ast.Inspect(decl, func(n ast.Node) bool {
-			ts, ok := n.(*ast.TypeSwitchStmt)
-			if !ok {
-				return true
+	var asserts []*ssa.TypeAssert
+	failEdge := map[edgeKey]bool{} // edges taken when an assertion succeeded
+	seenCase := map[string]bool{}
+	core.AllInstrs(chk, func(in ssa.Instruction) {
+		ta, ok := in.(*ssa.TypeAssert)
+		if !ok || !ta.CommaOk {
+			return
+		}
+		if _, isIface := ta.AssertedType.Underlying().(*types.Interface); !isIface {
+			return
+		}
+		asserts = append(asserts, ta)
+		if t := ta.AssertedType.String(); !seenCase[t] {
+			seenCase[t] = true
+			cases = append(cases, t)
+		}
+	})
+	for _, ifi := range core.Ifs(chk) {
+		cd := core.CondOf(ifi)
+		if ex, ok := cd.X.(*ssa.Extract); ok && cd.Op == token.ILLEGAL && ex.Index == 1 {
+			if ta, ok := ex.Tuple.(*ssa.TypeAssert); ok && ta.CommaOk {
+				failEdge[edgeKey{ifi.Block(), cd.True}] = true
 			}
-			for _, cl := range ts.Body.List {
-				cc := cl.(*ast.CaseClause)
-				if cc.List == nil {
-					hasDefault = true
-					continue
-				}
-				for _, e := range cc.List {
-					if tv, ok := pk.TypesInfo.Types[e]; ok {
-						cases = append(cases, tv.Type.String())
-					}
-				}
-			}
-			return false
-		})
+		}
 	}
 	sort.Strings(cases)
 	c.Instance("R3")
 	c.Check(strings.Join(cases, ",") == strings.Join(want, ","), "R3", "checkHandler/cases", p.Pos(chk.Pos()), "admits exactly the cast-field interfaces", fmt.Sprintf("admission check cases %v differ from the cast-field interfaces %v", cases, want))
-	// default arm panics: in SSA, some path reaches a panic (via utils.Assert or panic)
+	// a handler that satisfies none of them: every path that fails all assertions raises before the next
+	// handler is looked at or the function returns
 	pan := &core.Query{P: p, Pred: func(x ssa.Instruction) bool { _, ok := x.(*ssa.Panic); return ok }}
-	defaultPanics = pan.May(chk, nil)
-	c.Check(hasDefault && defaultPanics, "R3", "checkHandler/default-panics", p.Pos(chk.Pos()), "default arm raises", "admission check has no panicking default arm (a handler implementing no handler interface is admitted silently)")
+	defaultPanics := len(asserts) > 0
+	if len(asserts) > 0 {
+		first := asserts[0]
+		for _, a := range asserts {
+			if core.Dominates(a, first) {
+				first = a
+			}
+		}
+		t, _ := core.Search(first, nil, func(x ssa.Instruction) core.Action {
+			if pan.InstrMay(x, nil) {
+				return core.Barrier
+			}
+			if x == ssa.Instruction(first) || core.IsNormalReturn(x) {
+				return core.Target
+			}
+			return core.Continue
+		}, func(a, b *ssa.BasicBlock) bool { return !failEdge[edgeKey{a, b}] })
+		if t != nil {
+			defaultPanics = false
+		}
+	}
+	c.Check(defaultPanics, "R3", "checkHandler/default-panics", p.Pos(chk.Pos()), "a handler matching no interface raises", "admission check has no panicking default arm (a handler implementing no handler interface is admitted silently)")
 }
 
 // ---------- R4 ----------
@@ -1044,9 +1068,9 @@ func isParamOrCaptured(outer, inner *ssa.Function, v ssa.Value, idx int) bool {
 func runC03R5(c *core.Ctx, pr *pipeRoles) {
 	p := c.P
 	type view struct {
-		name       string
-		end, link  *types.Var
-		counter    string // "up0", "downSize", "up0bounded"
+		name      string
+		end, link *types.Var
+		counter   string // "up0", "downSize", "up0bounded"
 	}
 	views := []view{{"IndexOf", pr.head, pr.next, "up0"}, {"LastIndexOf", pr.tail, pr.prev, "downSize"}, {"ContextAt", pr.head, pr.next, "up0"}}
 	for _, v := range views {
